@@ -30,12 +30,13 @@ func init() {
 var injectSpec = pbt.Spec[Case]{
 	Property: "C15", Name: "inject",
 	Rule:   "bundles of 2-3 histories on the notify reader with injected events (hook VerifNewNotifyInjected): {append, burst with immediate delivery, pause 0-600us, sync, hold/release, deliver k queued events, remove-after-drain, re-create} x {reopen, plain} x {tail, from start} x event coalescing on/off; events for a path that is gone are dropped like fsnotify does; " + oracleText,
-	Budget: pbt.Budget{Quick: 9600, Thorough: 200000},
+	Budget: pbt.Budget{Quick: 4000, Thorough: 80000},
 	Gen:    genBundle("inject", 2, 3), Check: check, Classify: classify,
 	Watchdog: 10 * time.Minute, NoWatchdogViolation: true,
 }
 
 func TestInject(t *testing.T) {
+	limitShrink()
 	pbt.Run(t, injectSpec)
 	noteRun()
 	reportInconclusive(t)
